@@ -13,6 +13,15 @@ func init() {
 // multipliers 1..6), impact ties with different sizes; every 5th case drives the real checkAlloc with
 // MaxAlloc set just below / far below / above the measured heap and spans of 1 KB .. 1 MB.
 func c07Gen(r *rand.Rand, tier string, i int) any {
+	in := c07GenInner(r, tier, i)
+	in.ShrinkMax = 1 // keep a failing quick run short: one round of big cuts
+	return in
+}
+
+func c07GenInner(r *rand.Rand, tier string, i int) collInput {
+	if i%5 == 1 || i%5 == 3 {
+		return collGenEjectGrow(r, tier)
+	}
 	if i%5 == 4 {
 		in := collGen(r, tier, collBias{Tick: 8, Eject: 5, Reload: 3, Alloc: 22, BigPads: true})
 		if len(in.Ops) > 14 {
@@ -71,6 +80,26 @@ func c07Run(raw json.RawMessage) (Case, error) {
 			}
 		}
 		prev = o.Bufs
+	}
+	// second ejection pass on a buffer whose survivors grew since the previous pass
+	grown, passes := map[int]bool{}, 0
+	for _, o := range res.Obs {
+		switch o.Kind {
+		case "eject", "alloc":
+			if passes > 0 && len(grown) > 0 && (len(o.Left) > 0) {
+				tags = appendOnce(tags, "eject-after-survivors-grew")
+			}
+			passes++
+			grown = map[int]bool{}
+		case "span":
+			if passes > 0 && len(o.Fwd) == 0 {
+				for _, e := range o.Bufs[o.W] {
+					if len(e.Sids) > 1 {
+						grown[e.Tid] = true
+					}
+				}
+			}
+		}
 	}
 	for _, op := range in.Ops {
 		if op.Span != nil && op.Span.Age > 0 {
